@@ -98,6 +98,7 @@ def main(argv=None) -> int:
                   f"{st['silent_ok']}/{st['silent']} behaviour-preserving variants silent"
                   + (f", {st['skipped']} not applicable to this tree" if st.get("skipped") else "")
                   + (f", undecided: {', '.join(st['undecided'])}" if st.get("undecided") else "")
+                  + (f", seeded changes not reported (run-time quantity, outside the technique, DESIGN 7.9): {', '.join(st['recorded_misses'])}" if st.get("recorded_misses") else "")
                   + (f", recorded false alarms on rewrites (limitation, see DESIGN 7.6): {', '.join(st['recorded_false_alarms'])}" if st.get("recorded_false_alarms") else ""))
         return code
     if args.cmd == "all":
